@@ -109,6 +109,7 @@ type World struct {
 	faultOcc   map[string]int
 	siteLast   map[string]time.Duration
 	healing    bool
+	FaultsFired map[int]int // node -> number of planned service faults that have fired there
 	Infra      []string // infrastructure trouble (exit 2), never a verdict
 	NodeLogs   [2][]string
 	lastSM     *swap.SwapStateMachine
@@ -185,12 +186,14 @@ func (w *World) faultFor(node int, site string) *Fault {
 			now := w.Sim.Now().Milliseconds()
 			if now >= int64(f.FromMs) && now < int64(f.ToMs) {
 				w.Probe("fault:" + f.Kind + ":" + site)
+				w.noteFault(node)
 				return f
 			}
 			continue
 		}
 		if f.Occ == 0 || (occ >= f.Occ && occ < f.Occ+n) {
 			w.Probe("fault:" + f.Kind + ":" + site)
+			w.noteFault(node)
 			return f
 		}
 	}
@@ -294,3 +297,18 @@ func (w *World) ProbeList() []string {
 }
 
 func ms(n int) time.Duration { return time.Duration(n) * time.Millisecond }
+
+func (w *World) noteFault(node int) {
+	if w.FaultsFired == nil {
+		w.FaultsFired = map[int]int{}
+	}
+	w.FaultsFired[node]++
+}
+
+// ackLost marks an opening broadcast whose acknowledgement the plan makes the wallet lose.
+func ackLost(f *Fault) string {
+	if f != nil && f.Kind == "errafter" {
+		return "ack-lost"
+	}
+	return ""
+}
